@@ -224,6 +224,8 @@ func runInBubble(spec *RunSpec, res *RunResult) {
 	defer SetDetselHook(nil)
 	SetYieldHook(w.Yield)
 	defer SetYieldHook(nil)
+	SetYieldCtxHook(w.YieldCtx)
+	defer SetYieldCtxHook(nil)
 	go w.schedulerLoop()
 
 	c := &controller{spec: spec, w: w, res: res}
@@ -257,7 +259,7 @@ func runInBubble(spec *RunSpec, res *RunResult) {
 		}
 		pools = append(pools, pool)
 		worker.Set(pool)
-		ctx := context.Background()
+		ctx := WithGen(context.Background(), gen)
 		if inc == 0 {
 			d, err := sqlite.New(ctx, "", decodeReg, sqlite.WithInMemory())
 			if err != nil {
@@ -480,7 +482,7 @@ func lastUpdateOf(p *PlanSnap) int64 {
 
 func (c *controller) runClient(ws *coercion.Workstream, gen, ci int, ops []ClientOp) {
 	w := c.w
-	ctx := WithClient(context.Background(), ci)
+	ctx := WithGen(WithClient(context.Background(), ci), gen)
 	for _, op := range ops {
 		if w.Dead(gen) {
 			return
